@@ -81,14 +81,11 @@ def json_attr_dict_validator(data):
     if switch_type == "BASE":
         return
     elif switch_type == "MAPPING":
-        # Explicitly call `list(keys)` to get a fixed list of keys to avoid
-        # running into issues with iterating over a DictKeys view while
-        # modifying the dict at the same time. Inside the loop, we:
-        #   1) validate the key, converting to string if necessary
-        #   2) pop and validate the value
-        #   3) reassign the value to the (possibly converted) key
-        for key in list(data):
-            json_attr_dict_validator(data[key])
+        # Iterate over a fixed list of the items: the data may be a synced
+        # collection that reloads on every access, so looking the keys up
+        # one by one fails if the underlying resource loses a key meanwhile.
+        for key, value in list(data.items()):
+            json_attr_dict_validator(value)
             if isinstance(key, str):
                 if "." in key:
                     raise InvalidKeyError(
